@@ -575,3 +575,141 @@ def job_canary(seed=0):
                             clause="(deliberately false) " + label, detail="refuted as it must be" if ok else "a false catalogue claim was NOT refuted",
                             scope="canary", function=""))
     return out
+
+
+# ------------------------------------------------------------------ legacy named constructors (gate.get_*, state.get_*_1q, povm.get_*_povm)
+
+def job_legacy(seed=0):
+    g, s, p = M("gate"), M("state"), M("povm")
+    st, pt = M("state_typical"), M("povm_typical")
+    c1, c2 = csys("qubit", 1), csys("qubit", 2)
+    b1 = [np.asarray(b.toarray() if hasattr(b, "toarray") else b) for b in c1.basis()]
+    b2 = [np.asarray(b.toarray() if hasattr(b, "toarray") else b) for b in c2.basis()]
+    t = Tally("legacy-constructors", [OBJ + "gate:get_i", OBJ + "gate:get_x", OBJ + "gate:get_y", OBJ + "gate:get_z", OBJ + "gate:get_h", OBJ + "gate:get_root_x",
+                                      OBJ + "gate:get_root_y", OBJ + "gate:get_s", OBJ + "gate:get_sdg", OBJ + "gate:get_t", OBJ + "gate:get_cnot", OBJ + "gate:get_cz",
+                                      OBJ + "gate:get_swap", OBJ + "gate:get_depolarizing_channel", OBJ + "gate:get_x_rotation", OBJ + "gate:get_amplitutde_damping_channel",
+                                      OBJ + "state:get_x0_1q", OBJ + "state:get_bell_2q", OBJ + "povm:get_x_povm", OBJ + "povm:get_xx_povm"])
+    one = {"get_i": _I, "get_x": _X, "get_y": _Y, "get_z": _Z, "get_h": (_X + _Z) / math.sqrt(2), "get_root_x": _rot(_X, 90), "get_root_y": _rot(_Y, 90),
+           "get_s": np.diag([1, 1j]), "get_sdg": np.diag([1, -1j]), "get_t": np.diag([1, np.exp(1j * math.pi / 4)])}
+    for fn, u in one.items():
+        def chk():
+            gate = getattr(g, fn)(c1)
+            return close(gate.hs, _hs_from_unitary(u, b1).real) and gate.is_physical(), "HS matrix differs from the textbook unitary's"
+        t.guard("one-qubit-gate==textbook", fn, chk, "gate.get_<name>(c_sys) is the textbook gate (HS matrix of U . U^dagger) and physical")
+    for ci in (0, 1):
+        def chk():
+            gate = g.get_cnot(c2, c2.elemental_systems[ci])
+            u = textbook_unitary("cx", [ci, 1 - ci])
+            return close(gate.hs, _hs_from_unitary(u, b2).real) and gate.is_physical(), "CNOT differs from the textbook one with this control"
+        t.guard("cnot==textbook", ("get_cnot", ci), chk, "get_cnot(c_sys, control) is CNOT with that control qubit")
+    for fn, name in (("get_cz", "cz"), ("get_swap", "swap")):
+        def chk():
+            gate = getattr(g, fn)(c2)
+            return close(gate.hs, _hs_from_unitary(textbook_unitary(name, [0, 1]), b2).real) and gate.is_physical(), "differs from the textbook gate"
+        t.guard("two-qubit-gate==textbook", fn, chk, "get_cz / get_swap are the textbook gates")
+    for th in (0.0, 0.3, math.pi / 2, 2.5, -1.1):
+        def chk():
+            gate = g.get_x_rotation(th, c1)
+            return close(gate.hs, _hs_from_unitary(_expm_herm(_X * (th / 2)), b1).real) and gate.is_physical(), "differs from exp(-i theta X / 2)"
+        t.guard("x-rotation==textbook", ("get_x_rotation", th), chk, "get_x_rotation(theta) is rho -> R_x(theta) rho R_x(theta)^dagger")
+    for q in (0.0, 0.2, 0.75, 1.0):
+        def chk():
+            gate = g.get_depolarizing_channel(q, c1)
+            ref = np.diag([1.0] + [1 - q] * 3)
+            return close(gate.hs, ref) and gate.is_physical(), "differs from (1-p) id + p (replace by I/2)"
+        t.guard("depolarizing==textbook", ("get_depolarizing_channel", q), chk, "depolarizing channel of rate p")
+
+        def chk2():
+            gate = g.get_amplitutde_damping_channel(q, c1)
+            k0 = np.array([[1, 0], [0, math.sqrt(1 - q)]], dtype=complex)
+            k1 = np.array([[0, math.sqrt(q)], [0, 0]], dtype=complex)
+            ref = np.zeros((4, 4), dtype=complex)
+            for j, bj in enumerate(b1):
+                img = k0 @ bj @ k0.conj().T + k1 @ bj @ k1.conj().T
+                for i, bi in enumerate(b1):
+                    ref[i, j] = np.trace(bi.conj().T @ img)
+            return close(gate.hs, ref.real) and gate.is_physical(), "differs from the amplitude-damping channel with Kraus operators (|0><0| + sqrt(1-g)|1><1|, sqrt(g)|0><1|)"
+        t.guard("amplitude-damping==textbook", ("get_amplitutde_damping_channel", q), chk2, "amplitude damping of rate gamma")
+    for nm in ("x0", "x1", "y0", "y1", "z0", "z1"):
+        def chk():
+            v = getattr(s, f"get_{nm}_1q")(c1)
+            v = v.vec if hasattr(v, "vec") else v
+            return close(v, st.generate_state_from_name(c1, nm).vec), "differs from the catalogued state of that name"
+        t.guard("legacy-state==catalogue", f"get_{nm}_1q", chk, "state.get_<name>_1q agrees with the catalogue entry <name>")
+
+    def bell():
+        v = s.get_bell_2q(c2)
+        v = v.vec if hasattr(v, "vec") else v
+        return close(v, st.generate_state_from_name(c2, "bell_phi_plus").vec), "differs from the catalogued Bell state phi+"
+    t.guard("legacy-state==catalogue", "get_bell_2q", bell, "state.get_bell_2q is the catalogued Bell state (|00> + |11>)/sqrt 2")
+    for a in "xyz":
+        def chk():
+            pv = getattr(p, f"get_{a}_povm")(c1)
+            ref = pt.generate_povm_from_name(a, c1)
+            return len(pv.vecs) == len(ref.vecs) and all(close(u, v) for u, v in zip(pv.vecs, ref.vecs)) and pv.is_physical(), "differs from the catalogued POVM"
+        t.guard("legacy-povm==catalogue", f"get_{a}_povm", chk, "povm.get_<a>_povm agrees with the catalogue entry")
+        for b in "xyz":
+            def chk2():
+                pv = getattr(p, f"get_{a}{b}_povm")(c2)
+                ref = pt.generate_povm_from_name(f"{a}_{b}", c2)
+                return len(pv.vecs) == len(ref.vecs) and all(close(u, v) for u, v in zip(pv.vecs, ref.vecs)) and pv.is_physical(), "differs from the catalogued product POVM"
+            t.guard("legacy-povm==catalogue", f"get_{a}{b}_povm", chk2, "povm.get_<ab>_povm agrees with the catalogue entry a_b")
+    return t.results("bounded: all legacy named constructors of gate.py / state.py / povm.py (parametrised channels at 4-5 parameter values)")
+
+
+def job_testers(seed=0):
+    """tester_typical and generate_composite_system"""
+    tt, st, pt = M("tester_typical"), M("state_typical"), M("povm_typical")
+    t = Tally("testers-and-systems", [OBJ + "tester_typical:generate_tester_states", OBJ + "tester_typical:generate_tester_povms",
+                                      OBJ + "tester_typical:generate_tester_states_depolarized", OBJ + "tester_typical:generate_tester_povms_depolarized",
+                                      OBJ + "composite_system_typical:generate_composite_system"])
+    for mode, n, d in (("qubit", 1, 2), ("qubit", 2, 2), ("qubit", 3, 2), ("qutrit", 1, 3), ("qutrit", 2, 3)):
+        for ids in (None, list(range(5, 5 + n)), list(range(n))[::-1]):
+            def chk():
+                c = M("composite_system_typical").generate_composite_system(mode, n, ids_esys=ids) if ids is not None else csys(mode, n)
+                names = [e.name for e in c.elemental_systems]
+                want = sorted(ids) if ids is not None else list(range(n))
+                return c.dim == d ** n and c.num_e_sys == n and names == want and all(e.dim == d for e in c.elemental_systems), f"dim {c.dim}, names {names}"
+            t.guard("composite-system-has-the-requested-shape", (mode, n, tuple(ids) if ids else None), chk,
+                    "generate_composite_system(mode, n, ids): n elemental systems of the mode's dimension, named by ids in ascending order")
+    for mode, n, snames, pnames in (("qubit", 1, ["x0", "y0", "z0", "z1"], ["x", "y", "z"]), ("qutrit", 1, ["01z0", "12z1", "02x0", "01y0"], ["z3", "z2", "01x3", "02y3"]),
+                                    ("qubit", 2, ["z0", "x0", "y1"], ["x", "z"])):
+        c = csys(mode, n)
+        # on n subsystems the helpers take single-system names and return every product, first subsystem slowest
+        full_s = ["_".join(tup) for tup in itertools.product(snames, repeat=n)]
+        full_p = ["_".join(tup) for tup in itertools.product(pnames, repeat=n)]
+
+        def chk_s():
+            got = tt.generate_tester_states(c, snames)
+            ref = [st.generate_state_from_name(c, nm) for nm in full_s]
+            return len(got) == len(ref) and all(close(a.vec, b.vec) for a, b in zip(got, ref)), "tester states differ from the catalogue entries"
+        t.guard("tester-states==catalogue-entries", (mode, n), chk_s, "generate_tester_states(names) are the catalogued states in that order")
+
+        def chk_p():
+            got = tt.generate_tester_povms(c, pnames)
+            ref = [pt.generate_povm_from_name(nm, c) for nm in full_p]
+            return len(got) == len(ref) and all(len(a.vecs) == len(b.vecs) and all(close(u, v) for u, v in zip(a.vecs, b.vecs)) for a, b in zip(got, ref)), "tester POVMs differ"
+        t.guard("tester-povms==catalogue-entries", (mode, n), chk_p, "generate_tester_povms(names) are the catalogued POVMs in that order")
+        for rate in (0.0, 0.25) + (([0.1 * (k + 1) for k in range(len(snames))],) if n == 1 else ()):
+            def chk_d():
+                got = tt.generate_tester_states_depolarized(c, snames, rate)
+                ok = len(got) == len(full_s)
+                for k, (a, nm) in enumerate(zip(got, full_s)):
+                    q = rate if isinstance(rate, float) else rate[k]
+                    v = st.generate_state_from_name(c, nm).vec
+                    ref = np.concatenate([[v[0]], (1 - q) * v[1:]])
+                    ok = ok and close(a.vec, ref) and a.is_physical()
+                return ok, "depolarized tester state != (1-p) state + p I/d"
+            t.guard("depolarized-tester-states", (mode, n, str(rate)), chk_d, "depolarized tester states mix the catalogued state with the maximally mixed one in proportion p")
+        for rate in (0.0, 0.25) + (([0.1 * (k + 1) for k in range(len(pnames))],) if n == 1 else ()):
+            def chk_dp():
+                got = tt.generate_tester_povms_depolarized(c, pnames, rate)
+                ok = len(got) == len(full_p)
+                for k, (a, nm) in enumerate(zip(got, full_p)):
+                    q = rate if isinstance(rate, float) else rate[k]
+                    for u, v in zip(a.vecs, pt.generate_povm_from_name(nm, c).vecs):
+                        ok = ok and close(u, np.concatenate([[v[0]], (1 - q) * v[1:]]))
+                    ok = ok and a.is_physical()
+                return ok, "depolarized tester POVM != (1-p) E + p Tr(E) I/d"
+            t.guard("depolarized-tester-povms", (mode, n, str(rate)), chk_dp, "depolarized tester POVMs likewise")
+    return t.results("bounded: composite systems for 5 system shapes x 3 id lists; tester helpers on 3 systems, 3 rate settings")
